@@ -48,14 +48,20 @@ FreeKey(i, k) == ~(Foreign(i) /\ k \in aux.cached)
 CacheOn == cfg.cachei # 0
 Flags == IF Flavour = "c14" /\ Mode = "bfs" THEN {<<FALSE, FALSE>>, <<TRUE, FALSE>>} ELSE BOOLEAN \X BOOLEAN
 
+\* simulation prefers keys that hold a record for reads and get-modify-put calls (3 of 4 draws)
+PresentKeys == {k \in GKeys : st.store[k].present}
+RKeys == IF Emit /\ Mode = "sim" /\ PresentKeys # {} /\ RandomElement(1..4) > 1 THEN PresentKeys ELSE GKeys
+
 Family == {"put", "mut", "read", "bulk", "sub", "unsub", "hook", "unhook", "push", "api", "burst"}
 OpsOf(f) ==
   CASE f = "put" -> {KeyOp(nm, "if", i, k, n, fl[1], fl[2]) : nm \in {"Put", "PutNew"}, i \in GIfs,
                         k \in GKeys, n \in GNs, fl \in Flags}
-    [] f = "mut" -> {KeyOp(nm, "if", i, k, 0, FALSE, FALSE) :
-                        nm \in {"SetAbsoluteExpiry", "SetRelativeExpiry", "MakeSecret", "MakeCrownJewel", "Delete"}, i \in GIfs, k \in GKeys}
-                    \cup {KeyOp("InsertValue", "if", i, k, n, FALSE, FALSE) : i \in GIfs, k \in GKeys, n \in GNs}
-    [] f = "read" -> {KeyOp(nm, "if", i, k, 0, FALSE, FALSE) : nm \in {"Get", "Exists"}, i \in GIfs, k \in GKeys}
+    [] f = "mut" -> LET KS == RKeys IN
+                    {KeyOp(nm, "if", i, k, 0, FALSE, FALSE) :
+                        nm \in {"SetAbsoluteExpiry", "SetRelativeExpiry", "MakeSecret", "MakeCrownJewel", "Delete"}, i \in GIfs, k \in KS}
+                    \cup {KeyOp("InsertValue", "if", i, k, n, FALSE, FALSE) : i \in GIfs, k \in KS, n \in GNs}
+    [] f = "read" -> LET KS == RKeys IN
+                     {KeyOp(nm, "if", i, k, 0, FALSE, FALSE) : nm \in {"Get", "Exists"}, i \in GIfs, k \in KS}
                      \cup {QOp("Query", "if", i, q, 0) : i \in GIfs, q \in GQs}
     [] f = "bulk" -> IF CacheOn THEN {} ELSE
                      {QOp("Purge", "if", i, q, 0) : i \in GIfs, q \in GQs}
@@ -85,8 +91,9 @@ Allowed(o) ==
 FamOps(f) == {o \in OpsOf(f) : Allowed(o)}
 
 \* weights of the families per flavour (a family is drawn, then one of its calls)
-Weighted == IF Flavour = "c14"
-            THEN <<"put", "put", "put", "mut", "mut", "read", "sub", "sub", "unsub", "hook", "unhook", "push", "push", "api", "bulk", "burst">>
+Weighted == IF BurstN > 0 THEN <<"sub", "sub", "put", "burst", "burst", "burst", "unsub", "mut", "push">>
+            ELSE IF Flavour = "c14"
+            THEN <<"put", "put", "put", "mut", "mut", "mut", "mut", "read", "read", "sub", "sub", "unsub", "hook", "hook", "unhook", "push", "push", "api", "bulk">>
             ELSE <<"put", "put", "mut", "mut", "mut", "read", "read", "read", "bulk", "sub", "unsub", "push", "api", "api", "api", "hook">>
 \* (breadth-first: every family once)
 FamIdx == IF Mode = "sim" THEN {j \in 1..Len(Weighted) : Weighted[j] \in GFams /\ FamOps(Weighted[j]) # {}}
